@@ -45,7 +45,7 @@ def run():
                         ("Apa_Fluxes", "InvBadHll"), ("Apa_Fluxes", "InvBadBurgers"), ("Apa_Implicit", "InvBadExplicit"),
                         ("Apa_Vars", "InvBadEnthalpy2D"),
                         ("Apa_Positivity", "InvBadCfl"), ("Apa_Positivity", "InvBadHll"),
-                        ("Apa_Speeds", "InvBadEigen")):
+                        ("Apa_Speeds", "InvBadEigen"), ("Apa_Mesh", "InvBadRatioAlways")):
         v, _w = core.apalache(module, inv, timeout=300)
         say(v != "NoError", "Apalache: %s of %s is %s" % (inv, module, "refuted" if v == "Error" else v))
     for init, inv, what in (("InitBad", "InvNoneMissed", "one snapshot per iteration (D01) loses a requested time"),
